@@ -738,8 +738,10 @@ func c08ServersAlways(c *Ctx) {
 // in the disabled list — by its registered name, by its String(), or as
 // name(+tag) for one of the server's tags — is off (locked or not); otherwise
 // it is on when the enabled list is empty or holds its registered name.
-func c08IsEnabledSemantics(c *Ctx) {
-	fi := c.MustFunc("C08-R6", "internal/config.isEnabled")
+func c08IsEnabledSemantics(c *Ctx) { c08IsEnabledSemanticsR(c, "C08-R6") }
+
+func c08IsEnabledSemanticsR(c *Ctx, R string) {
+	fi := c.MustFunc(R, "internal/config.isEnabled")
 	if fi == nil {
 		return
 	}
@@ -753,11 +755,11 @@ func c08IsEnabledSemantics(c *Ctx) {
 	}
 	enabledP, disabledP, nameP, checkP, tagsP, lockedP := par("enabledChecks"), par("disabledChecks"), par("name"), par("check"), par("promTags"), par("locked")
 	if enabledP == nil || disabledP == nil || nameP == nil || checkP == nil || tagsP == nil || lockedP == nil {
-		c.Undecided("C08-R6", "anchor:isEnabled:params", fi.Decl.Pos(), "expected parameters enabledChecks, disabledChecks, name, check, promTags, locked")
+		c.Undecided(R, "anchor:isEnabled:params", fi.Decl.Pos(), "expected parameters enabledChecks, disabledChecks, name, check, promTags, locked")
 		return
 	}
 	const N, S, T = "N", "S(…)", "t"
-	disabledShapes := [][]string{{}, {N}, {S}, {N + "(+" + T + ")"}, {"X"}, {"X", N}, {N + "(+other)"}}
+	disabledShapes := [][]string{{}, {N}, {S}, {N + "(+" + T + ")"}, {"X"}, {"X", N}, {N + "(+other)"}, {N + "(+x" + T + ")"}, {N + "(+" + T + "x)"}}
 	enabledShapes := [][]string{{}, {N}, {"X"}, {"X", N}, {S}}
 	show := func(l []string) string {
 		if len(l) == 0 {
@@ -853,10 +855,10 @@ func c08IsEnabledSemantics(c *Ctx) {
 				}
 			}
 			if undec != "" {
-				c.Undecided("C08-R6", key, fi.Decl.Pos(), undec)
+				c.Undecided(R, key, fi.Decl.Pos(), undec)
 				continue
 			}
-			c.Check(bad == "", "C08-R6", key, fi.Decl.Pos(), "16 flag combinations agree with the documented meaning", "with the disabled list ["+show(dis)+"] and the enabled list ["+show(en)+"] (N = the registered name, S = check.String()) and "+bad)
+			c.Check(bad == "", R, key, fi.Decl.Pos(), "16 flag combinations agree with the documented meaning", "with the disabled list ["+show(dis)+"] and the enabled list ["+show(en)+"] (N = the registered name, S = check.String()) and "+bad)
 		}
 	}
 }
